@@ -1,6 +1,8 @@
 package main
 
 import (
+	"os"
+	"runtime/debug"
 	"sync"
 	"fmt"
 	"go/token"
@@ -341,6 +343,18 @@ func (e *Engine) step(s *State) []*State {
 			f.env[x] = r
 		case StrV:
 			f.env[x] = e.strBinop(s, x.Op, av, b.(StrV))
+		case SliceV: // only comparison with nil is legal Go: a nil slice has no backing object
+			bv := b.(SliceV)
+			var r Term
+			if bv.Ref.C != nil && bv.Ref.C.Sign() == 0 {
+				r = eq(av.Ref, refT(0))
+			} else {
+				r = eq(bv.Ref, refT(0))
+			}
+			if x.Op == token.NEQ {
+				r = not(r)
+			}
+			f.env[x] = r
 		case StructV:
 			r := e.structEq(s, av, b.(StructV))
 			if x.Op == token.NEQ {
@@ -502,11 +516,16 @@ func (e *Engine) step(s *State) []*State {
 		f.env[x] = e.typeAssert(s, iv, x)
 	case *ssa.MakeInterface:
 		iv := IfaceV{IsNil: boolT(false), V: e.get(s, f, x.X), Dyn: x.X.Type()}
-		if pv, ok := iv.V.(PtrV); ok && !pv.Nil && pv.Kind == "struct" {
-			if e.boxedByRef == nil {
-				e.boxedByRef = map[string]IfaceV{}
+		if e.boxedByRef == nil {
+			e.boxedByRef = map[string]IfaceV{}
+		}
+		if pv, ok := iv.V.(PtrV); ok {
+			if !pv.Nil && pv.Kind == "struct" {
+				e.boxedByRef[pv.Ref.S] = iv
 			}
-			e.boxedByRef[pv.Ref.S] = iv
+		} else if s.spec == 0 {
+			iv.Box = e.newRef(s) // a boxed non-reference value gets an identity of its own
+			e.boxedByRef[iv.Box.S] = iv
 		}
 		f.env[x] = iv
 	case *ssa.MakeClosure:
@@ -1348,6 +1367,14 @@ func (e *Engine) callFn(s *State, f *Frame, fn *ssa.Function, args []Val, bind [
 		f.env[x] = IfaceV{IsNil: boolT(false), V: e.newRef(s)} // a fresh, non-nil error value
 		return true
 	}
+	if c := e.ifaceContracts[fn.String()]; c != nil && s.spec == 0 {
+		// a function with a body that is deliberately kept outside this proof: recorded in the ghost trace,
+		// results constrained only by its assumed contract (nothing is havocked: listed as an assumption)
+		if r := e.unknownCall(s, fn.String(), fn.Signature, nil, args); r != nil {
+			f.env[x] = r
+		}
+		return true
+	}
 	if c := e.contracts[fn.String()]; c != nil && s.spec == 0 {
 		if r := e.callModular(s, c, args); r != nil {
 			f.env[x] = r
@@ -1584,6 +1611,9 @@ func (e *Engine) runPar(init *State, base int) []*State {
 						if r := recover(); r != nil {
 							if _, ok := r.(pathKilled); !ok {
 								failure = r
+								if os.Getenv("GOVC_STACK") != "" {
+									fmt.Fprintf(os.Stderr, "worker panic: %v\n%s\n", r, debug.Stack())
+								}
 							}
 							s.dead = true
 						}
